@@ -162,13 +162,22 @@ fn must_quote(s: &[u8]) -> bool {
     let is_doc_marker = |s: &[u8]| matches!(s, b"---" | b"...");
 
     // number overapproximation
-    let is_pos_num = |s: &[u8]| s.first().is_some_and(u8::is_ascii_digit);
-    let is_num = |s: &[u8]| is_pos_num(s.strip_prefix(b"-").unwrap_or(s));
+    // the reader accepts numbers with a sign and without an integral part, such as `+1`, `.5`, `-.inf`
+    let unsigned = s.strip_prefix(b"-").or_else(|| s.strip_prefix(b"+"));
+    let unsigned = unsigned.unwrap_or(s);
+    let is_pos_num = |s: &[u8]| {
+        let s = s.strip_prefix(b".").unwrap_or(s);
+        s.first().is_some_and(u8::is_ascii_digit)
+    };
+    // plain scalars are trimmed by readers
+    let ends_with_space = s.last().is_some_and(|c| b" \t".contains(c));
 
     s == b"~"
         || is_doc_marker(s)
-        || is_num(s)
+        || is_pos_num(unsigned)
         || kws.iter().any(|ss| ss.contains(&s))
+        || inf.iter().any(|ss| ss.as_bytes() == unsigned)
+        || ends_with_space
         || !ns_plain_one_line(s)
 }
 
@@ -210,6 +219,13 @@ fn must_quote_test() {
 
     assert!(must_quote(b"-1"));
     assert!(!must_quote(b"-a1"));
+
+    assert!(must_quote(b"+1"));
+    assert!(must_quote(b".5"));
+    assert!(must_quote(b"-.5"));
+    assert!(must_quote(b"+.inf"));
+    assert!(must_quote(b"a "));
+    assert!(!must_quote(b".a"));
 }
 
 /// Write a value as YAML document, without explicit document start/end markers.
